@@ -1,0 +1,14 @@
+//go:build verif
+
+package chain
+
+import (
+	cstate "0chain.net/chaincore/chain/state"
+	"0chain.net/chaincore/state"
+)
+
+// VerifMustInitGBState exposes mustInitGBState (genesis token distribution) to the
+// verification harness. Thin wrapper, no logic.
+func (c *Chain) VerifMustInitGBState(initStates *state.InitStates, stateCtx *cstate.StateContext) {
+	c.mustInitGBState(initStates, stateCtx)
+}
